@@ -177,6 +177,8 @@ func (m *MatchHTTP) handleHttp2WithPriorKnowledge(reader io.Reader, req *http.Re
 	}
 
 	framer := http2.NewFramer(io.Discard, reader)
+	// frames come from the matching buffer only: do not let a length field size the read buffer beyond it
+	framer.SetMaxReadFrameSize(2 * layer4.MaxMatchingBytes)
 
 	// read the first 10 frames until we get a headers frame (skipping settings, window update & priority frames)
 	var frame http2.Frame
